@@ -65,7 +65,9 @@ def _make_registry(case, shared=False):
     mode = case["mode"]
     alg, enc = MODES[mode]
     hr = None
-    if case["custom"] != "none":
+    if case["custom"] == "cty_int":
+        hr = {"cty": HeaderParameter("Content Type (numeric here)", "int", False)}      # the caller's entry replaces the standard one
+    elif case["custom"] != "none":
         hr = {"custom": HeaderParameter("Custom", "int", case["custom"] == "req")}
     if mode == "jws":
         from joserfc.jws import JWSRegistry
@@ -226,7 +228,7 @@ def run(ctx: Ctx) -> None:
     if thorough:
       ctx.tlc_many([("HeaderCheck", "HeaderCheck_dev_" + d, {"timeout": 600, "expect_violation": True})
                   for d in ("CritNotChecked", "StrictIgnoredOnConsume", "CheckMoreNotPassed", "RequiredCustomIgnored",
-                            "B64CritNotRequired", "BoolIsInt", "TypesUncheckedInJson", "StopAtFirstUsable", "StaleHeaderSnapshot")], par=9)
+                            "B64CritNotRequired", "BoolIsInt", "TypesUncheckedInJson", "StopAtFirstUsable", "StaleHeaderSnapshot", "CallerOverrideIgnored")], par=10)
     cases = []
     for r in rs:
         seen = set()
